@@ -75,6 +75,8 @@ def make_data(null_at=None, list_null=False):
         root["me"] = None
     elif null_at == "users.item":
         root["users"] = [ann, None]
+    elif null_at == "users.items":
+        root["users"] = [None, ann, None, bob]       # (appended) null entries that are NOT the last entry of a [User!] list, more than one
     elif null_at == "tags.item":
         ann["tags"] = ["a", None]
     elif null_at == "pets":
@@ -82,7 +84,7 @@ def make_data(null_at=None, list_null=False):
     return root
 
 
-NULLS = (None, "me.name", "me.age", "n", "me.best", "me", "users.item", "tags.item", "pets")
+NULLS = (None, "me.name", "me.age", "n", "me.best", "me", "users.item", "tags.item", "pets", "users.items")
 FAILS = ((), (("User", "name"),), (("User", "age"),), (("Query", "me"),), (("Dog", "barks"),), (("Query", "n"),), (("User", "friends"),),
          (("User", "name"), ("Query", "n")), (("Query", "echo"),), (("User", "score"),))
 
